@@ -73,12 +73,26 @@ def notes_of(finds, cat, name):
 C01 = COMMON + r'''
 def nonblank(l):
     return [x for x in l if x.strip() != '']
+def wire_kex(p, comp):
+    from ssh_audit.ssh2_kex import SSH2_Kex
+    from ssh_audit.ssh2_kexparty import SSH2_KexParty
+    from ssh_audit.outputbuffer import OutputBuffer
+    from ssh_audit.writebuf import WriteBuf
+    cli = SSH2_KexParty(list(p.get('cli_enc') if p.get('cli_enc') is not None else p['enc']), list(p.get('cli_mac') if p.get('cli_mac') is not None else p['mac']), list(comp), [''])
+    srv = SSH2_KexParty(list(p['enc']), list(p['mac']), list(comp), [''])
+    k = SSH2_Kex(OutputBuffer(), b'\x11' * 16, list(p['kex']), list(p['key']), cli, srv, False, 0)
+    w = WriteBuf(); k.write(w)
+    return SSH2_Kex.parse(OutputBuffer(), w.write_flush())
 for pi, p in enumerate(peers() + random_peers()):
     for role in ('server', 'client'):
         for mode in ('plain', 'batch', 'verbose', 'json'):
             cases += 1
             inp = {'peer': pi, 'role': role, 'mode': mode}
-            kex = H.make_kex(p['kex'], p['key'], p['enc'], p['mac'], cli_enc=p.get('cli_enc'), cli_mac=p.get('cli_mac'), comp=['none', 'zlib@openssh.com', 'zlib'])
+            if pi %% 2 == 0:
+                # the peer as parsed from the wire: a KEXINIT payload through SSH2_Kex.parse (name-list decoding included)
+                kex = wire_kex(p, ['none', 'zlib@openssh.com', 'zlib'])
+            else:
+                kex = H.make_kex(p['kex'], p['key'], p['enc'], p['mac'], cli_enc=p.get('cli_enc'), cli_mac=p.get('cli_mac'), comp=['none', 'zlib@openssh.com', 'zlib'])
             status, text = H.run_output(kex=kex, client_host=('10.1.2.3' if role == 'client' else None), json_out=(mode == 'json'), batch=(mode == 'batch'), verbose=(mode == 'verbose'))
             if mode == 'json':
                 try:
@@ -234,6 +248,19 @@ for p_, occ in ((dict(base, enc=['zz-alg', 'aes128-ctr', 'zz-alg']), [('enc', 'z
             jn = len([1 for e in doc[c] if e['algorithm'] == n and any('unknown algorithm' in x for v in e['notes'].values() for x in v)])
             if tn != k or jn != k:
                 fail({'peer': {x: p_[x] for x in ('kex', 'enc', 'mac')}, 'role': role, 'category': c, 'name': n}, {'flagged in text': tn, 'flagged in JSON': jn}, {'occurrences': k}, 'unknown-repeated')
+# a name advertised in two categories is rated per category in every view (a cipher name in the MAC list is an unknown MAC)
+for enc, mac in ((['chacha20-poly1305@openssh.com', 'aes128-ctr'], ['chacha20-poly1305@openssh.com', 'hmac-sha2-256']), (['aes128-ctr'], ['aes128-ctr']),
+                 (['hmac-sha2-256', 'aes256-ctr'], ['hmac-sha2-256']), (['zz-both'], ['zz-both', 'hmac-sha2-512'])):
+    cases += 1
+    p_ = dict(base, enc=enc, mac=mac)
+    tf, doc = render(p_)
+    for c in ('enc', 'mac'):
+        for n in p_[c]:
+            t = clean(notes_of(tf, c, n)); j = clean(json_notes(doc, c, n) or {})
+            known = n in DB[c]
+            tu = any('unknown algorithm' in x for v in t.values() for x in v); ju = any('unknown algorithm' in x for v in j.values() for x in v)
+            if tu == known or ju == known or (known and t != j):
+                fail({'enc': enc, 'mac': mac, 'category': c, 'name': n}, {'text': t, 'json': j}, 'rated by (category, name): ' + ('the database entry' if known else 'unknown algorithm'), 'cross-category-name')
 # ratings that come from probing (host-key size): the same for a name whether it is advertised alone or next to its RSA siblings
 sys.path.insert(0, %(native)r)
 import fakenet as F
@@ -241,10 +268,18 @@ def probe_notes(keys, bits):
     srv = F.Server(['curve25519-sha256'], list(keys), ['aes128-ctr'], ['hmac-sha2-256'], hostkeys={k: F.rsa_blob(bits) for k in keys})
     st, out = F.run_main(['-n', '--skip-rate-test', 's.test'], F.FakeNet({'s.test': srv}))
     return H.text_findings(out)
+def probe_json(keys, bits):
+    srv = F.Server(['curve25519-sha256'], list(keys), ['aes128-ctr'], ['hmac-sha2-256'], hostkeys={k: F.rsa_blob(bits) for k in keys})
+    st, out = F.run_main(['-n', '-j', '--skip-rate-test', 's.test'], F.FakeNet({'s.test': srv}))
+    return json.loads(out)
 for bits in (1024, 2048, 4096):
     for n in ('rsa-sha2-512', 'rsa-sha2-256', 'ssh-rsa'):
         cases += 1
         a = full(notes_of(probe_notes([n], bits), 'key', n))
+        # ... and the same in the JSON view of the same (probed) server, and never "unknown" for a database name
+        jn = full(clean(json_notes(probe_json([n], bits), 'key', n) or {}))
+        if full(clean(a)) != jn or any('unknown algorithm' in x for v in a.values() for x in v):
+            fail({'host key': n, 'bits': bits, 'view': 'text vs JSON after probing'}, {'text': a, 'json': jn}, 'the same notes in both views', 'probe-rating-text-vs-json')
         for keys in (['rsa-sha2-256', 'rsa-sha2-512', 'ssh-rsa'], ['ssh-rsa', 'rsa-sha2-512', 'rsa-sha2-256']):
             b = full(notes_of(probe_notes(keys, bits), 'key', n))
             if a != b:
@@ -334,6 +369,23 @@ for pi, p, role in sel2:
             # first-line logic: a hidden first line moves the name to the next shown line; compare (cat, name, level, note) sets
             if [x for x in fl if x not in findings_set(t0)]:
                 fail(dict(inp, level=lvl, options=extra), [x for x in fl if x not in findings_set(t0)][:3], 'no new findings', 'level-alters')
+            # ... and every finding at or above the minimum level is still shown (only lines below the level are removed)
+            lost = [x for x in f0 if (x[0], x[1], x[2], x[3]) not in [(y[0], y[1], y[2], y[3]) for y in fl]]
+            if lost:
+                fail(dict(inp, level=lvl, options=extra), lost[:3], 'findings at or above the minimum level are kept', 'level-drops-finding')
+# the additional notes ((nfo) lines) of the text report are the additional_notes of the JSON report, also for a peer without any finding
+CLEANSTRICT = dict(kex=['sntrup761x25519-sha512@openssh.com', 'kex-strict-s-v00@openssh.com'], key=['ssh-ed25519'], enc=['chacha20-poly1305@openssh.com', 'aes256-gcm@openssh.com'], mac=['hmac-sha2-512-etm@openssh.com'])
+for p_ in (CLEANSTRICT, dict(CLEANSTRICT, enc=['chacha20-poly1305@openssh.com', 'aes256-cbc'])):
+    for kw in ({}, dict(batch=True), dict(verbose=True)):
+        cases += 1
+        k_ = H.make_kex(p_['kex'], p_['key'], p_['enc'], p_['mac'])
+        st_t, tx = H.run_output(kex=k_, banner='SSH-2.0-OpenSSH_9.9', **kw)
+        k_ = H.make_kex(p_['kex'], p_['key'], p_['enc'], p_['mac'])
+        st_j, js_ = H.run_output(kex=k_, banner='SSH-2.0-OpenSSH_9.9', json_out=True)
+        notes_j = [n for n in json.loads(js_).get('additional_notes', []) if n]
+        notes_t = [H.ANSI.sub('', l)[6:] for l in tx.split('\n') if H.ANSI.sub('', l).startswith('(nfo) ') and 'hardening guides' not in l]
+        if st_t != st_j or any(n not in notes_t for n in notes_j):
+            fail({'peer': 'strict-kex, otherwise clean', 'options': kw}, {'text notes': [n[:60] for n in notes_t], 'status': [st_t, st_j]}, {'json notes': [n[:60] for n in notes_j]}, 'additional-notes')
 # SSH-1 peers: the status is the same in every rendering (text modes and JSON)
 for cm, am in ((0x48, 0x24), (0, 0), (0x7f, 0x7f), (0x08, 0x04), (0x04, 0x08)):
     cases += 1
@@ -369,6 +421,22 @@ for lines, slow, threads in ((['a.test', 'b.test'], 'a.test', 2), (['a.test', 'b
                 fail({'targets': lines, 'slow': slow, 'threads': threads, 'flag': flag}, {'elements': len(arr) if isinstance(arr, list) else None}, len(lines), 'multi-target-json-elements')
         except Exception as e:
             fail({'targets': lines, 'slow': slow, 'threads': threads, 'flag': flag}, out[-80:], 'one well-formed JSON array', 'multi-target-json')
+# a policy audit with -j / -jj prints one JSON document even when the policy file uses deprecated directives (their warning must not go to stdout)
+polfile = tempfile.NamedTemporaryFile('w', suffix='.txt', delete=False)
+polfile.write('name = "Old style"\nversion = 1\nhostkey_size_ssh-ed25519 = 256\ndh_modulus_size_diffie-hellman-group-exchange-sha256 = 3072\nhost keys = ssh-ed25519\nkey exchanges = curve25519-sha256\nciphers = aes128-ctr\nmacs = hmac-sha2-256\n')
+polfile.close()
+try:
+    for flag in ('-j', '-jj'):
+        cases += 1
+        st, out = F.run_main(['-n', flag, '--skip-rate-test', '-P', polfile.name, 'p.test'], F.FakeNet({'p.test': msrv()}))
+        try:
+            doc = json.loads(out)
+            if not isinstance(doc, dict) or 'passed' not in doc:
+                fail({'policy file': 'deprecated directives', 'flag': flag}, out[:120], 'one JSON verdict document', 'policy-json')
+        except Exception as e:
+            fail({'policy file': 'deprecated directives', 'flag': flag}, out[:160], 'stdout is one well-formed JSON document', 'policy-json')
+finally:
+    os.unlink(polfile.name)
 # byte-identical repeated audits, including under different hash seeds (a peer whose report carries a note listing several algorithms included)
 cases += 1
 STRICT = dict(kex=['curve25519-sha256', 'kex-strict-s-v00@openssh.com'], key=['ssh-ed25519'], enc=['chacha20-poly1305@openssh.com', 'aes256-cbc', 'aes128-cbc', '3des-cbc', 'aes128-ctr'],
